@@ -15,7 +15,7 @@ SHARDS = {"quick": 8, "thorough": 16}
 RULE = (
     "case = (namespace, float width, N in [2,400], three generated log-density vectors "
     "ll/lp/lq = 10^k*u with k in [-3,5], optional ties / one dominant weight / all-equal / a proper "
-    "subset of ll or lp equal to -inf, a constant shift c with |c|<=1e5, a permutation, a seed for the "
+    "subset of ll or lp equal to -inf, a constant shift c with |c|<=1e5, a permutation, index-array / slice selections, a seed for the "
     "rejection-sampling generator). Oracle = float64/fsum reference formulas on the stored values. "
     "Non-trivial = weights not all equal AND (>=1 -inf entry OR range(log_w)>50 OR an exact tie in log_w); "
     "distinct = distinct case hash."
@@ -207,6 +207,31 @@ def run_case(case, ctx):
         ctx.fail("shift:log_evidence", f"log_evidence {base['lz']!r} -> {tf['lz']!r} after adding c={c!r}", case)
     if abs(tf["ess"] - base["ess"]) > (math.expm1(4 * delta) + 2 * base["rtol"]) * base["ess"]:
         ctx.fail("shift:ess", f"ESS {base['ess']!r} -> {tf['ess']!r} after adding c={c!r}", case)
+
+    # a selection of a weighted set is again a weighted set: its ESS / efficiency / scaled weights must be the
+    # functionals of ITS rows (the evidence is carried from the parent by design, so it is not re-checked here)
+    g = np.random.default_rng(case["perm_seed"])
+    picks = [g.integers(0, n, size=n), np.full(n, int(np.argmax(slw))), g.integers(0, n, size=max(1, n // 2))]
+    if n > 2:
+        picks.append(slice(0, n, 2))
+    for pick in picks:
+        sub = S[pick]
+        sw = env.to_np(sub.log_w).astype(np.float64)
+        if np.isneginf(sw).all():
+            continue  # all-zero weights: functionals undefined
+        if not np.array_equal(sw, slw[pick], equal_nan=True):
+            ctx.fail("select:log_w", "log_w of a selection is not the selection of log_w", case)
+            continue
+        ref_e = refmath.ess(sw)
+        e = _f(sub.effective_sample_size)
+        m = len(sw)
+        rt = 8 * m * eps + 16 * eps
+        if not math.isfinite(e) or abs(e - ref_e) > rt * ref_e:
+            ctx.fail("select:ess", f"ESS of a selection ({'slice' if isinstance(pick, slice) else 'index array of length %d' % len(pick)}) is {e!r}; "
+                                   f"(sum w)^2/sum w^2 of its own rows is {ref_e!r}", case)
+        eff = _f(sub.efficiency)
+        if abs(eff - e / m) > 8 * eps * (e / m):
+            ctx.fail("select:efficiency", f"efficiency of a selection {eff!r} != ESS/N = {e / m!r}", case)
 
     # rejection sampling against a generator the harness can replay
     u = np.random.default_rng(case["rej_seed"]).uniform(size=n)
